@@ -53,14 +53,14 @@ S = UNIT['sources']
 S += [
   dict(id='dwoh_get_hash', file=F, sig=r'hash_t get_hash\(\) const', which=0, c_sig='static hash_t dwoh_get_hash(const struct data_t* self)',
        subst=TYPES, members=['value'], must_fire={'subst:hash_fn': 1}),
-  dict(id='dwoh_ge', file=F, sig=r'bool greater_or_equal\(hash_t\s*\w*\s*, const Key& key\) const', which=0,
+  dict(id='dwoh_ge', file=F, sig=r'bool greater_or_equal\(hash_t\s*\w*\s*, const Key&\s*\w*\s*\) const', which=0,
        c_sig='static _Bool dwoh_greater_or_equal(const struct data_t* self, hash_t h, kkey_t key)', members=['value', 'hash'], must_fire={'member:value': 1}),
   dict(id='dwh_ctor', file=F, sig=r'explicit data_with_hash\(construct_without_hash, Args&&\.\.\. args\)',
        c_sig='static void dwh_ctor_without_hash(struct data_t* self)', subst=[(r'harris_michael_hash_map::hash\{\}\(', 'HASH_FN(', 'hash_fn')],
        members=['value', 'hash'], must_fire={'subst:hash_fn': 1, 'member:hash': 1}),
   dict(id='dwh_get_hash', file=F, sig=r'hash_t get_hash\(\) const', which=1, c_sig='static hash_t dwh_get_hash(const struct data_t* self)',
        members=['value', 'hash'], must_fire={'member:hash': 1}),
-  dict(id='dwh_ge', file=F, sig=r'bool greater_or_equal\(hash_t\s*\w*\s*, const Key& key\) const', which=1,
+  dict(id='dwh_ge', file=F, sig=r'bool greater_or_equal\(hash_t\s*\w*\s*, const Key&\s*\w*\s*\) const', which=1,
        c_sig='static _Bool dwh_greater_or_equal(const struct data_t* self, hash_t h, kkey_t key)', members=['value', 'hash'], must_fire={'member:value': 1}),
   dict(id='modulo', file='xenium/utils.hpp', sig=r'T operator\(\)\(T a, T b\)', c_sig='static size_t utils_modulo(size_t a, size_t b)', must_fire={}),
 ]
@@ -238,6 +238,7 @@ UNIT['obligations'].update({
   'hmm.iter.reset.releases': dict(deciding=True, text='reset() makes the iterator equal to end() (bucket = num_buckets, no guards, prev null); operator== / != compare the current nodes'),
   'hmm.find.commit': dict(deciding=True, text='[INT] find: its unlink CAS uses the cell and value validated by the latest acquire_if_equal and the successor frozen by the mark, reclaim only after that CAS succeeded; on return cur is validated, unmarked, was still linked from prev when compared, result = key equality on it'),
   'hmm.insert.commit': dict(deciding=True, text='[INT] insertion: the linking CAS is on the cell/value find validated, installs the private initialised node whose next is that value; true iff this CAS succeeded; otherwise nothing published and the node freed'),
+  'hmm.insert.expected_protected': dict(deciding=True, text='[INT] at the linking CAS of an insertion the expected successor is still protected by a guard of this operation (it was not reset between the validating find and the CAS): otherwise the node can be reclaimed and its address recycled in the window and the CAS succeeds on the recycled address (ABA)'),
   'hmm.erase.commit': dict(deciding=True, text='[INT] erase: marking CAS on cur->next from the unmarked value read to the same value with mark; true only after it succeeded; unlink CAS on the validated prev from cur to the frozen successor; retire iff that CAS succeeded, else find is re-run'),
   'hmm.iter.erase.commit': dict(deciding=True, text='[INT] erase(iterator): as erase(key); the returned iterator never designates the erased node'),
   'hmm.iter.inc.progress': dict(deciding=True, text='[INT] ++ never designates the old element again and moves strictly forward, also when another handle inserts/erases next to cur between its steps (F11)'),
